@@ -113,6 +113,19 @@ pub proof fn lemma_ids_concat(s: Seq<SpMat>, t: Seq<SpMat>) ensures ids(s + t) =
 
 //@item struct/Trans subst=Vec<SpMat<R>>:Vec<SpMat>
 
+/// sprs::PermView and the two permutation matrices built from it (ASSUMED: from_row_perm(p) a = a.permute_rows(p), a from_col_perm(p) = a.permute_cols(p);
+/// sampled in spmat_ops_small; the two are mutually inverse)
+pub uninterp spec fn pmat(p: int) -> int;
+pub uninterp spec fn pmat_inv(p: int) -> int;
+#[derive(Clone, Copy)]
+pub struct PermView { pub p: Ghost<int> }
+impl PermView {
+    #[verifier::external_body] pub fn dim(&self) -> (r: usize) { unimplemented!() }
+}
+impl SpMat {
+    #[verifier::external_body] pub fn from_row_perm(p: PermView) -> (r: SpMat) ensures r.m@ == pmat(p.p@) { unimplemented!() }
+    #[verifier::external_body] pub fn from_col_perm(p: PermView) -> (r: SpMat) ensures r.m@ == pmat_inv(p.p@) { unimplemented!() }
+}
 impl Trans {
     pub open spec fn fwd(&self) -> int { fprod(ids(self.f_mats@)) }
     pub open spec fn bwd(&self) -> int { bprod(ids(self.b_mats@)) }
@@ -155,6 +168,20 @@ impl Trans {
     //@+ post
     //@| lemma_ids_concat(old(self).f_mats@, o0.f_mats@); lemma_ids_concat(old(self).b_mats@, o0.b_mats@);
     //@| lemma_concat(ids(old(self).f_mats@), ids(o0.f_mats@)); lemma_concat(ids(old(self).b_mats@), ids(o0.b_mats@));
+
+    /// compose with a permutation:  F' = P F,  B' = B P^-1   (P the row-permutation matrix of p, built by SpMat::from_row_perm / from_col_perm)
+    pub fn append_perm(&mut self, p: PermView)
+        ensures final(self).fwd() == mmul(pmat(p.p@), old(self).fwd()), final(self).bwd() == mmul(old(self).bwd(), pmat_inv(p.p@)),
+    //@body impl/Trans/append_perm machine=tgt_dim
+    //@+ sig
+    //@| fn append_perm(&mut self, p: PermView)
+
+    /// the composition as a new value
+    pub fn merged(&self, other: &Trans) -> (r: Trans)
+        ensures r.fwd() == mmul(other.fwd(), self.fwd()), r.bwd() == mmul(self.bwd(), other.bwd()),
+    //@body impl/Trans/merged
+    //@+ sig
+    //@| fn merged(&self, other: &Trans<R>) -> Self
 
     /// f = fn * ... f1 * f0
     pub fn forward_mat(&self) -> (r: SpMat) ensures r.m@ == self.fwd(),
